@@ -33,8 +33,9 @@ VaddrClass == {"le_base", "gt_base"}
 DynClass == {"terminated", "unterminated"}
 ListClass == {"acyclic", "cyclic", "selfloop", "dangling", "name_nonutf8", "name_at_end", "empty"}
 NameClass == {"plain", "dev", "version_multibyte", "no_version", "many_components", "deleted"}
-BytesClass == {"elf", "non_elf", "elf_corrupt", "elf_undyn", "elf_badnote"}   \* elf_undyn: an image whose dynamic section has no DT_NULL within its declared size;
+BytesClass == {"elf", "non_elf", "elf_corrupt", "elf_undyn", "elf_badnote", "elf_binnote"}   \* elf_undyn: an image whose dynamic section has no DT_NULL within its declared size;
                                                                             \* elf_badnote: its note segment / section starts with a note that cannot be decoded
+                                                                            \* (its name does not fit); elf_binnote: ... whose name is not text - another decoding error
 TmoClass == {"finite", "zero", "max"}                           \* the caller's stop timeout: some milliseconds, none at all, Duration::MAX ("wait for ever")
 UmapClass == {"none", "plain", "wraps"}                         \* a caller-supplied mapping: none, one somewhere, one whose start + size exceeds the address space
 ThrClass == {"stoppable", "vfork"}                              \* a thread of the target: one that stops when told to, one that sleeps in vfork() (no signal reaches it until its child execs or exits)
@@ -130,14 +131,14 @@ UserMaps  == /\ pc = "usermaps"
 (* module list: build id from memory, else from the file unless it lives under /dev; name / version from the path *)
 Modules   == /\ pc = "modules"
              /\ opened' = IF inp.bytes \in {"non_elf", "elf_corrupt"} /\ inp.name # "dev" /\ inp.name # "deleted" THEN opened \cup {"file"} ELSE opened
-             /\ IF inp.bytes \in {"elf", "elf_undyn", "elf_badnote"}
+             /\ IF inp.bytes \in {"elf", "elf_undyn", "elf_badnote", "elf_binnote"}
                   THEN pc' = "notescan" /\ UNCHANGED <<outcome, dynpos>>            \* an ELF header: the notes are searched for a build id
                   ELSE pc' = "appmem" /\ UNCHANGED <<outcome, dynpos>>
              /\ UNCHANGED <<inp, softErrs, cur, count>>
 (* for note in NoteDataIterator { let Ok(note) = note else { break }; .. }: the iterator does not move past a note it cannot
    decode; the scan gives up there (the id then comes from the text section), or - if it skipped errors - would ask again for ever *)
 NoteScan  == /\ pc = "notescan"
-             /\ IF inp.bytes = "elf_badnote" /\ ~StopOnDecodeError
+             /\ IF inp.bytes \in {"elf_badnote", "elf_binnote"} /\ ~StopOnDecodeError
                   THEN UNCHANGED <<pc, dynpos>>
                   ELSE pc' = "soscan" /\ dynpos' = 1
              /\ UNCHANGED <<inp, outcome, softErrs, opened, cur, count>>
